@@ -9,6 +9,7 @@ CONSTANTS
   QMax = 2
   Win = 2
   Timelies = {0}
+  Fifos = {1}
 CONSTRAINT Emit
 INVARIANT NoCrash
 INVARIANT MarkIsTrue
